@@ -35,3 +35,77 @@ Definition run_chunked (c : chunked float) : list Z := observe (c_opt c_float) (
 Definition run_pstage (n : nat) (writes : list (nat * option float)) : list Z :=
   run_chunked (pstage_assume_init
                  (fold_left (fun b (w : nat * option float) => pstage_uset (fst w) (snd w) b) writes (pstage_uninit n))).
+(* ---- valid get family (vget / uvget / to_opt_iter / iter_cast / opt_iter_cast) -------------------------------------- *)
+Definition f_is_nan (x : float) : bool := negb (PrimFloat.eqb x x).
+Definition f_to_opt (x : float) : option float := if f_is_nan x then None else Some x.
+(* `x as i32`: truncation toward zero, saturating, NaN -> 0 *)
+Definition f2i32 (x : float) : Z :=
+  let sat z := Z.max (- 2 ^ 31) (Z.min (2 ^ 31 - 1) z) in
+  match Prim2SF x with
+  | S754_finite s m e =>
+      let a := if (0 <=? e)%Z then (Z.pos m * 2 ^ e)%Z else (Z.pos m / 2 ^ (- e))%Z in
+      sat (if s then (- a)%Z else a)
+  | S754_infinity s => if s then (- 2 ^ 31)%Z else (2 ^ 31 - 1)%Z
+  | _ => 0%Z
+  end.
+
+(* T = f64 (to_o = NaN test, unw = id) or T = Option<f64> (the option view; to_o = id, unw = NaN for None).
+   ints: also the i32 casts of the elements themselves (not offered for Option<f64> -> i32: i32 has no null) *)
+Definition observe_valid {T} (c : T -> list Z) (to_o : T -> option float) (unw : T -> float) (ints : bool)
+    (len : nat) (get : nat -> option T) (l : list T) : list Z :=
+  flat_map (fun i => c_opt c_float (valid_get to_o len get i)) (seq 0 (S len))
+  ++ c_sep ++ flat_map (fun i => c_opt c_float (uvalid_get to_o get i)) (seq 0 len)
+  ++ c_sep ++ cells (c_opt c_float) (to_opt_iter_m to_o l)
+  ++ c_sep ++ cells c_float (iter_cast_m unw l)
+  ++ c_sep ++ (if ints then cells c_int (iter_cast_m (fun x => f2i32 (unw x)) l) else [])
+  ++ c_sep ++ cells (c_opt c_float) (opt_iter_cast_m to_o (fun x => x) l)
+  ++ c_sep ++ cells (c_opt c_int) (opt_iter_cast_m to_o f2i32 l).
+
+Definition run_ring_valid (first second : list float) : list Z :=
+  let r := {| rbuf := second ++ first; rhead := length second; rlen := length first + length second |} in
+  observe_valid c_float f_to_opt (fun x => x) true (rlen r) (ring_get r) (ring_to_list r).
+Definition run_strided_valid (base : list float) (off : nat) (step : Z) (len : nat) : list Z :=
+  let s := {| sbase := base; soff := off; sstep := step; slen := len |} in
+  observe_valid c_float f_to_opt (fun x => x) true (slen s) (strided_get s) (strided_to_list s).
+Definition run_vec_valid (l : list float) : list Z :=
+  observe_valid c_float f_to_opt (fun x => x) true (length l) (nth_error l) l.
+Definition run_opt_valid (l : list (option float)) : list Z :=
+  observe_valid (c_opt c_float) (fun o => o) (fun o => match o with Some x => x | None => nan end) false
+                (length l) (nth_error l) l.
+
+(* ---- mutable accessors ----------------------------------------------------------------------------------------------- *)
+Definition marker (i : nat) : float := fl (Z.of_nat (1000 + i)) 0.
+
+(* get_mut(i) for i in 0..=len (None beyond the end), uget_mut(i) for i < len, and a write through
+   try_as_slice_mut()[k] for every k of the slice (null when not offered): after each write the whole
+   sequence is re-observed                                                                             *)
+Definition observe_mut {C} (to_list : C -> list float) (len : nat) (uset : nat -> float -> option C)
+    (slice_set : nat -> float -> option (option C)) : list Z :=
+  flat_map (fun i => match checked_set len uset i (marker i) with
+                     | Some c' => cells c_float (to_list c') | None => c_err end ++ c_sep) (seq 0 (S len))
+  ++ c_sep
+  ++ flat_map (fun i => match uset i (marker i) with
+                        | Some c' => cells c_float (to_list c') | None => c_panic OtherPanic end ++ c_sep) (seq 0 len)
+  ++ c_sep
+  ++ match slice_set 0 (marker 0) with
+     | None => c_null
+     | Some _ => c_int 1 ++ c_nat len
+                 ++ flat_map (fun k => match slice_set k (marker k) with
+                                       | Some (Some c') => cells c_float (to_list c') | _ => c_err end ++ c_sep) (seq 0 len)
+     end.
+
+Definition run_ring_mut (first second : list float) : list Z :=
+  let r := {| rbuf := second ++ first; rhead := length second; rlen := length first + length second |} in
+  observe_mut (@ring_to_list float) (rlen r) (ring_uset r) (ring_slice_mut_set r).
+Definition run_strided_mut (base : list float) (off : nat) (step : Z) (len : nat) : list Z :=
+  let s := {| sbase := base; soff := off; sstep := step; slen := len |} in
+  observe_mut (@strided_to_list float) (slen s) (strided_uset s) (strided_slice_mut_set s).
+Definition run_vec_mut (l : list float) : list Z :=
+  observe_mut (fun l' : list float => l') (length l) (list_uset l)
+              (fun k v => Some (list_uset l k v)).
+
+(* iter.rs IntoTIter::into_titer (consumes the container): forward and backward *)
+Definition run_into_titer (l : list float) : list Z := cells c_float l ++ c_sep ++ cells c_float (rev l).
+Definition run_into_titer_ring (first second : list float) : list Z :=
+  let r := {| rbuf := second ++ first; rhead := length second; rlen := length first + length second |} in
+  run_into_titer (ring_to_list r).
